@@ -15,7 +15,7 @@ from concurrent.futures import ThreadPoolExecutor, as_completed
 from typing import TYPE_CHECKING
 
 from happysimulator.core.event import Event
-from happysimulator.core.temporal import Instant
+from happysimulator.core.temporal import Duration, Instant
 from happysimulator.parallel.summary import ParallelSimulationSummary
 
 if TYPE_CHECKING:
@@ -83,15 +83,16 @@ class WindowedCoordinator:
             name: 0.0 for name in self._simulations
         }
 
+        window = Duration(max(1, Duration.from_seconds(float(self._window_size)).nanoseconds))
+
         with ThreadPoolExecutor(max_workers=self._max_workers) as pool:
             while current_time < self._end_time:
-                window_end_s = current_time.to_seconds() + self._window_size
+                # Integer nanoseconds: a float round trip can truncate the
+                # clamped end below end_time and the loop would never finish.
+                window_end = current_time + window
                 # Clamp to end_time
-                if self._end_time != Instant.Infinity:
-                    end_s = self._end_time.to_seconds()
-                    if window_end_s > end_s:
-                        window_end_s = end_s
-                window_end = Instant.from_seconds(window_end_s)
+                if window_end > self._end_time:
+                    window_end = self._end_time
 
                 # 1. EXECUTE (parallel)
                 futures = {}
